@@ -119,14 +119,14 @@ theorem rnCompressSearch_eq (height : Nat) (fuel : Nat) (hf : height < fuel) (da
         (Int.ofNat height) iter st
       = Geo.rnSearchBytes (decOf f64) (boxOf segAt segRect series) (toGBox rect)
           (fun s i => iter s (segAt series (Int.ofNat i)) (Int.ofNat i)) data height addr st := by
-  have e16 : addr + 8 + 8 = addr + 16 := by omega
-  have e24 : addr + 16 + 8 = addr + 24 := by omega
-  have e32 : addr + 24 + 8 = addr + 32 := by omega
   induction height generalizing fuel addr st with
   | zero =>
     cases fuel with
     | zero => omega
     | succ fuel =>
+      have e16 : addr + 8 + 8 = addr + 16 := by omega
+      have e24 : addr + 16 + 8 = addr + 24 := by omega
+      have e32 : addr + 24 + 8 = addr + 32 := by omega
       rw [rnSearchBytes.eq_1]
       unfold IGen.rnCompressSearch
       simp only [Option.bind_eq_bind, Option.pure_def, ofNat_add_one, ofNat_add_eight, le64_bind,
@@ -168,6 +168,78 @@ theorem rnCompressSearch_eq (height : Nat) (fuel : Nat) (hf : height < fuel) (da
             unfold boxOf at hm'
             simp only [hm, hm']
             rfl
-  | succ h ih => skip
+  | succ h ih =>
+    cases fuel with
+    | zero => omega
+    | succ fuel =>
+      have e16 : addr + 8 + 8 = addr + 16 := by omega
+      have e24 : addr + 16 + 8 = addr + 24 := by omega
+      have e32 : addr + 24 + 8 = addr + 32 := by omega
+      have ih' := ih fuel (by omega)
+      rw [rnSearchBytes.eq_1]
+      unfold IGen.rnCompressSearch
+      simp only [Option.bind_eq_bind, Option.pure_def, ofNat_add_one, ofNat_add_eight, le64_bind,
+        bytesAt_ofNat, rir_eq, f64fb_eq, toGBox_mk, e16, e24, e32, ofNat_succ_beq,
+        Bool.false_eq_true, if_false, ofNat_succ_sub_one, ih']
+      refine congrArg _ (funext fun b0 => ?_)
+      refine congrArg _ (funext fun b1 => ?_)
+      refine congrArg _ (funext fun b2 => ?_)
+      refine congrArg _ (funext fun b3 => ?_)
+      by_cases hm : (!(toGBox rect).meets
+          ⟨decOf f64 b0, decOf f64 b1, decOf f64 b2, decOf f64 b3⟩) = true
+      · rw [if_pos hm]; exact if_pos hm
+      · rw [if_neg hm]; refine Eq.trans (if_neg hm) ?_
+        refine congrArg _ (funext fun count => ?_)
+        refine Eq.trans (post_eq1 _ _ (fun _ => rfl) ?_) ?_
+        · rintro ⟨a, s⟩; rfl
+        have hl := childLoop_eq data (decOf f64) (boxOf segAt segRect series) (toGBox rect)
+          (fun s i => iter s (segAt series (Int.ofNat i)) (Int.ofNat i)) h
+        rw [hl _ ?_ (intRange 0 (Int.ofNat count)) (addr + 32 + 1) st, intRange_zero_length]
+        intro i a st'
+        simp only [le32_bind, ofNat_add_four]
+        refine congrArg _ (funext fun naddr => ?_)
+        refine congrArg _ (funext fun r => ?_)
+        cases r.2 <;> rfl
+
+/-- The hypothesis on the fuel is about the height byte actually stored at `addr`: `Array Nat`
+    does not bound its entries by 256, so `256 < fuel` alone would not do. -/
+theorem rCompressSearch_eq (fuel : Nat) (data : Array Nat) (addr : Nat)
+    (hf : ∀ h, data[addr]? = some h → h < fuel) (series : SR)
+    (rect : Rect F) (iter : σ → S → Int → σ × Bool) (st : σ) :
+    IGen.rCompressSearch (aOps segAt segRect f64) fuel data (Int.ofNat addr) series rect iter st
+      = Geo.rSearchBytes (decOf f64) (boxOf segAt segRect series) (toGBox rect)
+          (fun s i => iter s (segAt series (Int.ofNat i)) (Int.ofNat i)) data addr st := by
+  unfold IGen.rCompressSearch Geo.rSearchBytes
+  have hlen : (aOps segAt segRect f64).bytesLen data = Int.ofNat data.size := rfl
+  simp only [Option.bind_eq_bind, ofNat_add_one, bytesAt_ofNat, hlen]
+  by_cases he : addr = data.size
+  · subst he
+    simp
+  · have e1 : (Int.ofNat addr == Int.ofNat data.size) = false := by
+      have : Int.ofNat addr ≠ Int.ofNat data.size := fun hc => he (Int.ofNat.inj hc)
+      simpa using this
+    have e2 : (addr == data.size) = false := by simpa using he
+    simp only [e1, e2, Bool.false_eq_true, if_false]
+    cases h0 : data[addr]? with
+    | none => rfl
+    | some h =>
+      simp only [Option.bind_some]
+      rw [rnCompressSearch_eq segAt segRect f64 h fuel (hf h h0)]
+      cases rnSearchBytes (decOf f64) (boxOf segAt segRect series) (toGBox rect)
+        (fun s i => iter s (segAt series (Int.ofNat i)) (Int.ofNat i)) data h (addr + 1) st <;> rfl
+
+/-- bytes below 256 and `256 ≤ fuel`: the form the callers use -/
+theorem rCompressSearch_eq_bytes (fuel : Nat) (data : Array Nat) (addr : Nat) (hfuel : 256 ≤ fuel)
+    (hb : ∀ (i b : Nat), data[i]? = some b → b < 256) (series : SR)
+    (rect : Rect F) (iter : σ → S → Int → σ × Bool) (st : σ) :
+    IGen.rCompressSearch (aOps segAt segRect f64) fuel data (Int.ofNat addr) series rect iter st
+      = Geo.rSearchBytes (decOf f64) (boxOf segAt segRect series) (toGBox rect)
+          (fun s i => iter s (segAt series (Int.ofNat i)) (Int.ofNat i)) data addr st :=
+  rCompressSearch_eq segAt segRect f64 fuel data addr
+    (fun h hh => Nat.lt_of_lt_of_le (hb addr h hh) hfuel) series rect iter st
 
 end Geo.IGlue
+
+#print axioms Geo.IGlue.rnCompressSearch_eq
+#print axioms Geo.IGlue.rCompressSearch_eq
+#print axioms Geo.IGlue.rCompressSearch_eq_bytes
